@@ -90,6 +90,14 @@ check("C08", "exploration",
       "The reference is the implementation itself with fresh state (history + model where model = fresh execution).",
       "recorded operation histories compared with fresh-state executions of the same operation", "DESIGN.md 5/C08")
 
+check("C14", "exploration",
+      "Row sequences mixing accepted rows, rejected cells, wrong item counts and duplicates are written one at a time through "
+      "cutplace.Writer (delimited and fixed CIDs, headers, whole-file checks, every line-delimiter setting); after every "
+      "write_row the stream is inspected and compared with the writer model (grown by exactly the row's encoding iff the row "
+      "conforms), close() is compared with the distinct-count model, and the output is read back under a fresh CID.",
+      "Trusts M-field/M-rows and csv.writer for the default dialect's encoding.",
+      "stream-growth monitor after every write + writer model + read-back through the real reader", "DESIGN.md 5/C14")
+
 NOT_YET = "check not built yet in this session; see DESIGN.md section 5 for the planned monitor"
 
 def main():
